@@ -18,7 +18,7 @@ open Viv
 * topology keys are unique and each is a declared port ("ports ⊆ schema");
 * at the top level and in dictionaries without `_path`, EVERY port of the schema is listed
   (ports missing there are read through the default path but their updates are dropped — candidate
-  finding CF-B); in `_path` dictionaries and below tuple paths missing ports default on both sides;
+  edge CF-B, notes/C06.md); in `_path` dictionaries and below tuple paths missing ports default on both sides;
 * a dictionary topology is only given to a dictionary of ports (never to a variable or `'**'`);
   a glob's dictionary sub-topology lists every sub-port (no defaults there).
 The F20 shape (a glob with an empty sub-schema) has no declared variable below the glob, so no
@@ -170,7 +170,8 @@ dictionary ports, `_path` dictionaries and glob ports), the inverted update carr
 and `a` ends at `f(…f(f(old,u₁),u₂)…,u_n)` (in topology order).  Missing: the induction over `n`
 and over the other port forms (merging into a partially built `inverse` dictionary); those are
 covered by the harness oracle (`multi:` checks, up to 9 variables over all port forms) and the
-model/implementation correspondence, not by a theorem. -/
+model/implementation correspondence, not by a theorem.  A second shape (direct port + path-wired
+glob port, both listing orders) is `multi_direct_and_glob_applied_partial` below. -/
 theorem multi_two_applied_partial (f : Val → Val → Except Err Val) (t n : Tree) (outer : Path)
     (p1 p2 : String) (q1 q2 init : Path) (last : String) (u1 u2 x1 x2 : Val)
     (hp : p1 ≠ p2) (hp1 : p1 ≠ "*") (hp2 : p2 ≠ "*")
@@ -236,5 +237,109 @@ example :
       (·.find ["S", "x"]) = some (.node true (.int 16) false []) ∧
     normalize ([] ++ ["T", "..", "S", "x"]) = ["S"] ++ ["x"] := by
   constructor <;> rfl
+
+/-- **A direct port and a path-wired glob port on the same child variable (the CF-A shape, inside
+`WellFormed` since the repair 9f366a6), in BOTH listing orders**: port `pa` is wired to the child
+store `node` (`S/c1`), glob port `pg` is wired by `{"*": qg}` to the store whose child `c` is that
+same node; the process returns `{pa: {x: u1}, pg: {c: {x: u2}}}`.  Whichever port is listed first in
+the topology, the inverted update carries both values under `_multi_update` (in listing order) and
+the variable `node/x` ends at `f(f(old, first), second)`; nothing else changes
+(`apply_single_frame`).
+
+PARTIAL in the same sense as `multi_two_applied_partial`: one more shape of the full n-variable
+statement given there (two variables, one through a glob child). -/
+theorem multi_direct_and_glob_applied_partial (f : Val → Val → Except Err Val) (t n : Tree)
+    (outer qa qg node : Path) (pa pg c x : String) (u1 u2 y1 y12 z2 z21 : Val)
+    (hp : pa ≠ pg) (hpa : pa ≠ "*") (hpg : pg ≠ "*")
+    (ha : normalize (outer ++ qa) = node) (hg : normalize (outer ++ (qg ++ [c])) = node)
+    (hu1 : u1.isDict = false) (hu2 : u2.isDict = false)
+    (hm : "_multi_update" ∉ node ++ [x]) (hnode : t.find (node ++ [x]) = some n) (hn : n.IsVariable)
+    (hf1 : f n.value u1 = .ok y1) (hf12 : f y1 u2 = .ok y12)
+    (hf2 : f n.value u2 = .ok z2) (hf21 : f z2 u1 = .ok z21) :
+    let upd : Val := .dict [(pa, .dict [(x, u1)]), (pg, .dict [(c, .dict [(x, u2)])])]
+    let multi (a b : Val) : Val := nest node (.dict [(x, .dict [("_multi_update", .list [a, b])])])
+    -- the direct port listed first
+    (invertTopology outer [(pa, .path qa), (pg, .dict [("*", .path qg)])] upd = .ok (multi u1 u2) ∧
+      applyUpdate f (multi u1 u2) t = .ok (t.modifyAt (fun m => m.setValue y12) (node ++ [x]))) ∧
+    -- the glob port listed first
+    (invertTopology outer [(pg, .dict [("*", .path qg)]), (pa, .path qa)] upd = .ok (multi u2 u1) ∧
+      applyUpdate f (multi u2 u1) t = .ok (t.modifyAt (fun m => m.setValue z21) (node ++ [x]))) := by
+  intro upd multi
+  have hne : ¬ (pa = pg) := hp
+  have hne' : ¬ (pg = pa) := fun e => hp e.symm
+  -- applying a two-valued `_multi_update` at `node/x`
+  have happly : ∀ (a b ya yab : Val), a.isDict = false → b.isDict = false →
+      f n.value a = .ok ya → f ya b = .ok yab →
+      applyUpdate f (multi a b) t = .ok (t.modifyAt (fun m => m.setValue yab) (node ++ [x])) := by
+    intro a b ya yab hua hub h1 h2
+    have hw := applyUpdate_multi_two f n a b ya yab hua hub hn h1 h2
+    have := applyUpdate_nest_gen f (.dict [("_multi_update", .list [a, b])]) (node ++ [x]) t n
+      (n.setValue yab) hm hnode hw
+    rw [nest_append] at this
+    simp only [nest] at this
+    show applyUpdate f (nest node (.dict [(x, .dict [("_multi_update", .list [a, b])])])) t = _
+    rw [this]
+    have hconst : ∀ (p : Path) (t : Tree), t.find p = some n →
+        t.modifyAt (fun _ => n.setValue yab) p = t.modifyAt (fun m => m.setValue yab) p := by
+      intro p
+      induction p with
+      | nil => intro t h; simp [Tree.find] at h; subst h; rfl
+      | cons k rest ih =>
+        intro t h
+        simp only [Tree.find] at h
+        cases hc : AL.get k t.kids with
+        | none => simp [hc] at h
+        | some c' =>
+          simp only [hc, Option.bind_some] at h
+          simp only [Tree.modifyAt, hc, ih c' h]
+    rw [hconst _ t hnode]
+  -- the glob entry processes its single child like a port wired to `qg ++ [c]`
+  have hglob : ∀ inv, inverseValue (.dict [("*", .path qg)]) outer (.dict [(c, .dict [(x, u2)])]) inv =
+      invTuple outer (qg ++ [c]) (.dict [(x, u2)]) inv := by
+    intro inv
+    have hpop : popPath [("*", Topo.path qg)] = .ok (Option.none, [("*", Topo.path qg)]) := by
+      simp [popPath, AL.get]
+    simp only [inverseValue, hpop]
+    rw [inverse]
+    simp only [Bool.false_and, Bool.false_eq_true, if_false, if_true, inverseGlob,
+      foldChildren_single, invGlobChild_eq_invTuple, inverse]
+    cases invTuple outer (qg ++ [c]) (.dict [(x, u2)]) inv <;> rfl
+  refine ⟨⟨?_, happly u1 u2 y1 y12 hu1 hu2 hf1 hf12⟩, ⟨?_, happly u2 u1 z2 z21 hu2 hu1 hf2 hf21⟩⟩
+  · show invertTopology outer _ (.dict _) = _
+    unfold invertTopology
+    rw [inverse]
+    simp only [Bool.false_and, Bool.false_eq_true, if_false, hpa, KV.lookup, if_true, inverseValue,
+      invTuple_first outer qa node x u1 ha]
+    rw [inverse]
+    simp only [Bool.false_and, Bool.false_eq_true, if_false, hpg, KV.lookup, hne, if_true, hglob,
+      invTuple_collide outer (qg ++ [c]) node x u1 u2 hg hu1, inverse]
+    rfl
+  · show invertTopology outer _ (.dict _) = _
+    unfold invertTopology
+    rw [inverse]
+    simp only [Bool.false_and, Bool.false_eq_true, if_false, hpg, KV.lookup, hne, if_true, hglob,
+      invTuple_first outer (qg ++ [c]) node x u2 hg]
+    rw [inverse]
+    simp only [Bool.false_and, Bool.false_eq_true, if_false, hpa, KV.lookup, if_true, inverseValue,
+      invTuple_collide outer qa node x u2 u1 ha hu2, inverse]
+    rfl
+
+private def cfaSchema : Schema :=
+  .dict false [("a", .dict false [("x", .leaf [("_default", .int 0)])]),
+               ("g", .dict false [("*", .dict false [("x", .leaf [("_default", .int 0)])])])]
+private def cfaTree : Tree :=
+  .node false .none false
+    [("S", .node false .none true [("c1", .node false .none false [("x", .node true (.int 0) false [])])])]
+
+/-- non-vacuity (the former candidate finding CF-A, now a regression witness): `a → S/c1`,
+`g → {"*": S}`, updates 10 and 1 on 0 → 11 in either listing order; both topologies are well-formed -/
+example :
+    WellFormed cfaSchema [("a", .path ["S", "c1"]), ("g", .dict [("*", .path ["S"])])] = true ∧
+    WellFormed cfaSchema [("g", .dict [("*", .path ["S"])]), ("a", .path ["S", "c1"])] = true ∧
+    normalize ([] ++ ["S", "c1"]) = ["S", "c1"] ∧ normalize ([] ++ (["S"] ++ ["c1"])) = ["S", "c1"] ∧
+    (applyUpdate accumulate
+        (nest ["S", "c1"] (.dict [("x", .dict [("_multi_update", .list [.int 10, .int 1])])])) cfaTree).toOption.bind
+      (·.find ["S", "c1", "x"]) = some (.node true (.int 11) false []) := by
+  refine ⟨by decide, by decide, rfl, rfl, rfl⟩
 
 end VivProps.C06
